@@ -59,6 +59,7 @@ def string_splitting(conv: ast.expr) -> bool:
 def run(chk: Check) -> None:
     ix = get_index()
     run_section_application(chk, ix)
+    run_section_aliasing(chk, ix)
     O = options_attrs(ix)
     mopt = ix.module("mypy.options")
     mcfg = ix.module("mypy.config_parser")
@@ -359,3 +360,39 @@ def run_section_application(chk: Check, ix) -> None:
         r6.ok("clone_for_module applies each matching unstructured section inside the loop over _glob_options", cfm.loc(loops[0]))
     else:
         r6.violation("clone_for_module applies each matching unstructured section inside the loop over _glob_options", cfm.loc(), "matching unstructured sections are no longer applied one after the other in file order")
+
+
+def run_section_aliasing(chk: Check, ix) -> None:
+    """R17.7: per-module settings dicts are not shared between modules."""
+    r7 = chk.rule("R17.7", "where the config parser stores a settings dict per module/section key inside a loop and later updates stored dicts in place, the stored object is created afresh in every iteration (copy / dict display / comprehension inside the loop body): one shared dict would let a later section written for one module change the settings of the others", floor=1)
+    m = ix.module("mypy.config_parser")
+    par = m.parents()
+    n = 0
+    for q, f in sorted(ix.functions.items()):
+        if f.module is not m or f.parent is not None:
+            continue
+        stores = [a for a in ast.walk(f.node) if isinstance(a, ast.Assign) and isinstance(a.targets[0], ast.Subscript) and isinstance(a.targets[0].value, ast.Name) and isinstance(a.value, ast.Name)]
+        for st in stores:
+            d = st.targets[0].value.id
+            inplace = [a for a in ast.walk(f.node) if isinstance(a, (ast.Assign, ast.AugAssign)) and isinstance((a.targets[0] if isinstance(a, ast.Assign) else a.target), ast.Subscript) and isinstance((a.targets[0] if isinstance(a, ast.Assign) else a.target).value, ast.Subscript) and norm((a.targets[0] if isinstance(a, ast.Assign) else a.target).value.value) == d]
+            inplace += [c for c in ast.walk(f.node) if isinstance(c, ast.Call) and isinstance(c.func, ast.Attribute) and c.func.attr in ("update", "setdefault", "pop") and isinstance(c.func.value, ast.Subscript) and norm(c.func.value.value) == d]
+            loop = par.get(st)
+            while loop is not None and not isinstance(loop, ast.For):
+                loop = par.get(loop) if loop is not f.node else None
+            if not inplace or loop is None:
+                continue
+            n += 1
+            v = st.value.id
+            defs = [a for a in ast.walk(f.node) if isinstance(a, ast.Assign) and norm(a.targets[0]) == v]
+            fresh = bool(defs) and all(any(a is x for x in ast.walk(loop)) and (isinstance(a.value, (ast.Dict, ast.DictComp)) or (isinstance(a.value, ast.Call) and (call_name_(a.value) in ("copy", "dict", "deepcopy")))) for a in defs)
+            key = f"{q}: `{d}[...] = {v}` stores a dict made in the same loop iteration"
+            if fresh:
+                r7.ok(key, f.loc(st))
+            else:
+                r7.violation(key, f.loc(st), f"`{v}` is created outside the `for {norm(loop.target)} in {norm(loop.iter)}` loop (or is not a fresh copy), so every key written in the loop refers to the same dict; `{d}[...]` entries are later updated in place, and an update meant for one module then changes the others too")
+    if n < 1:
+        raise AnalysisError("no per-key stored-and-later-updated settings dict found in config_parser (expected destructure_overrides)")
+
+
+def call_name_(c: ast.Call):
+    return c.func.id if isinstance(c.func, ast.Name) else (c.func.attr if isinstance(c.func, ast.Attribute) else None)
